@@ -9,7 +9,11 @@ import subprocess
 import sys
 from pathlib import Path
 
-OUT = Path("/tmp/seed2/out")
+import os
+
+WAVE = int(os.environ.get("WAVE", "2"))
+ROOT = Path(f"/tmp/seed{WAVE}")
+OUT = ROOT / "out"
 DEST = Path("/verif/seeded")
 
 
@@ -28,13 +32,13 @@ def main(nns):
             patch = src / f"patch{kk}.diff"
             if not patch.exists():
                 continue
-            d = DEST / f"C{nn}-w2-{k}"
+            d = DEST / f"C{nn}-w{WAVE}-{k}"
             d.mkdir(parents=True, exist_ok=True)
             shutil.copy(patch, d / "patch.diff")
             for name, dst in ((f"demo{kk}.py", "demo.py"), (f"notes{kk}.md", "notes.md")):
                 if (src / name).exists():
                     shutil.copy(src / name, d / dst)
-            conf = Path(f"/tmp/seed2/confirm/{nn}_{k}.log")
+            conf = ROOT / "confirm" / f"{nn}_{k}.log"
             ctext = conf.read_text() if conf.exists() else ""
             m = re.search(r"RESULT NN=\d+ k=\d+ without=(\d+) with=(\d+)", ctext)
             suite = re.findall(r"^(\d+ (?:passed|failed).*)$", ctext, re.M)
@@ -43,7 +47,7 @@ def main(nns):
             meta = {
                 "id": d.name,
                 "property": f"C{nn}",
-                "wave": 2,
+                "wave": WAVE,
                 "files": files,
                 "needs_to_manifest": old.get("needs_to_manifest") or first_par((src / f"notes{kk}.md").read_text() if (src / f"notes{kk}.md").exists() else ""),
                 "remark": old.get("remark", ""),
